@@ -103,6 +103,26 @@ fn run(c: &mut Ctx) {
     c.exhaustive("all 2^24 addresses through Plane::from_downlink");
     c.class_n("ctor_sweep", hi - lo);
 
+    // adjacency: each block edge followed by each of its 24 one-bit neighbours (the lookup must not depend on the
+    // previous lookup); done by worker 0 in one thread
+    if c.worker == 0 {
+        let mut n = 0u64;
+        let edges: Vec<u32> = icao_table::BLOCKS.iter().flat_map(|b| [b.0, b.1, (b.0 + b.1) / 2]).collect();
+        'outer: for &e in &edges {
+            for b in 0..24u32 {
+                for addr in [e, e ^ (1 << b)] {
+                    let reg = ctor_reg(&df, addr);
+                    n += 1;
+                    if let Err(m) = judge(addr, &reg) {
+                        c.fail(format!("{} (looked up directly after {:06X})", m, e), "c17:block", json!({"kind":"addr_pair","first":e,"addr":addr}));
+                        break 'outer;
+                    }
+                }
+            }
+        }
+        c.eval(n);
+        c.class_n("one_bit_neighbour_lookups", n);
+    }
     // generated: block edges and random addresses through the reader, three formats
     let edges: Vec<u32> = icao_table::BLOCKS
         .iter()
@@ -142,6 +162,19 @@ fn replay(c: &mut Ctx, case: &Value) {
     let addr = case.get("addr").and_then(|v| v.as_u64()).unwrap_or(0) as u32;
     let via = case.get("via").and_then(|v| v.as_str()).unwrap_or("ctor");
     c.eval(1);
+    if case.get("kind").and_then(|k| k.as_str()) == Some("addr_pair") {
+        let first = case["first"].as_u64().unwrap_or(0) as u32;
+        if let Some(msg) = squitterator::get_message(&bits::df11(0x400000, 5, 0).hex()) {
+            if let Ok(df) = DF::from_message(&msg) {
+                let _ = ctor_reg(&df, first);
+                let reg = ctor_reg(&df, addr);
+                if let Err(m) = judge(addr, &reg) {
+                    c.fail(m, "c17:block", case.clone());
+                }
+            }
+        }
+        return;
+    }
     if via == "reader" {
         let fmt = case.get("fmt").and_then(|v| v.as_u64()).unwrap_or(11) as u32;
         match reader_reg(addr, fmt) {
